@@ -72,12 +72,15 @@ def locked(name):
 
 def sync_scratch(name):
     """Copy /repo's working tree (without target/ and .git/) to a fixed scratch
-    directory outside /repo and /verif.  rsync --checksum keeps mtimes of unchanged
-    files so cargo's fingerprints stay valid between runs; files that vanished from
-    /repo (or overlay files added by an earlier run) are deleted."""
+    directory outside /repo and /verif.  rsync --checksum leaves unchanged files (and their
+    mtimes) alone so cargo's fingerprints stay valid between runs, and gives changed files the
+    current time; files that vanished from /repo (or overlay files added by an earlier run)
+    are deleted."""
     dst = os.path.join(SCRATCH_ROOT, name)
     os.makedirs(dst, exist_ok=True)
-    subprocess.run(['rsync', '-a', '--delete', '--checksum', '--exclude', '/target', '--exclude', '.git',
+    # -rlpgoD = -a without -t: a file whose *content* changed is rewritten with the current time, so cargo's mtime-based
+    # fingerprints can never take an older-dated restore of a file for "unchanged" (stale build-script output / rlibs)
+    subprocess.run(['rsync', '-rlpgoD', '--delete', '--checksum', '--exclude', '/target', '--exclude', '.git',
                     REPO + '/', dst + '/'], check=True)
     return dst
 
